@@ -77,7 +77,17 @@ void *vs_realloc(void *p, size_t n) { jitter(); return realloc(p, n); }
 char *vs_strdup(const char *s) { jitter(); return strdup(s); }
 void vs_free(void *p) { free(p); }
 int vs_chdir(const char *p) { return chdir(p); }
-int vs_clock_gettime(clockid_t id, struct timespec *ts) { return clock_gettime(id, ts); }
+// Results that libc writes through a pointer go through a local first: the
+// copy is instrumented code, so ThreadSanitizer sees the write into the
+// library's object (a static shared between threads, say) even where it has no
+// interceptor that models the libc call's own write.
+int vs_clock_gettime(clockid_t id, struct timespec *ts)
+{
+  struct timespec tmp;
+  int r = clock_gettime(id, &tmp);
+  if (r == 0 && ts) *ts = tmp;
+  return r;
+}
 int vs_close(int fd) { jitter(); return close(fd); }
 int vs_dup2(int a, int b) { return dup2(a, b); }
 int vs_execvp(const char *f, char *const argv[]) { return execvp(f, argv); }
@@ -97,7 +107,13 @@ pid_t vs_fork(void)
   return fork();
 }
 char *vs_getcwd(char *b, size_t n) { return getcwd(b, n); }
-int vs_getrlimit(int r, struct rlimit *rl) { return getrlimit((__rlimit_resource_t) r, rl); }
+int vs_getrlimit(int r, struct rlimit *rl)
+{
+  struct rlimit tmp;
+  int ret = getrlimit((__rlimit_resource_t) r, &tmp);
+  if (ret == 0 && rl) *rl = tmp;
+  return ret;
+}
 int vs_kill(pid_t p, int s) { jitter(); return kill(p, s); }
 int vs_open(const char *p, int fl, ...)
 {
@@ -110,13 +126,46 @@ int vs_open(const char *p, int fl, ...)
 }
 int vs_pipe(int fds[2]) { jitter(); return pipe(fds); }
 int vs_poll(struct pollfd *f, nfds_t n, int t) { jitter(); return poll(f, n, t); }
-int vs_pthread_sigmask(int how, const sigset_t *s, sigset_t *o) { return pthread_sigmask(how, s, o); }
+int vs_pthread_sigmask(int how, const sigset_t *s, sigset_t *o)
+{
+  sigset_t in, out;
+  if (s) in = *s;  // (an instrumented read of the library's object)
+  jitter();
+  int r = pthread_sigmask(how, s ? &in : NULL, o ? &out : NULL);
+  if (r == 0 && o) *o = out;
+  return r;
+}
 ssize_t vs_read(int fd, void *b, size_t n) { jitter(); return read(fd, b, n); }
 ssize_t vs_write(int fd, const void *b, size_t n) { jitter(); return write(fd, b, n); }
-int vs_sigaction(int s, const struct sigaction *a, struct sigaction *o) { return sigaction(s, a, o); }
-int vs_sigemptyset(sigset_t *s) { return sigemptyset(s); }
-int vs_sigfillset(sigset_t *s) { return sigfillset(s); }
-pid_t vs_waitpid(pid_t p, int *st, int o) { jitter(); return waitpid(p, st, o); }
+int vs_sigaction(int s, const struct sigaction *a, struct sigaction *o)
+{
+  struct sigaction out;
+  int r = sigaction(s, a, o ? &out : NULL);
+  if (r == 0 && o) *o = out;
+  return r;
+}
+int vs_sigemptyset(sigset_t *s)
+{
+  sigset_t tmp;
+  int r = sigemptyset(&tmp);
+  if (r == 0) *s = tmp;
+  return r;
+}
+int vs_sigfillset(sigset_t *s)
+{
+  sigset_t tmp;
+  int r = sigfillset(&tmp);
+  if (r == 0) *s = tmp;
+  return r;
+}
+pid_t vs_waitpid(pid_t p, int *st, int o)
+{
+  int tmp = 0;
+  jitter();
+  pid_t r = waitpid(p, &tmp, o);
+  if (r > 0 && st) *st = tmp;
+  return r;
+}
 
 // alternates (see vsys.c): plain pass-through
 #include <sys/socket.h>
@@ -124,7 +173,7 @@ pid_t vs_waitpid(pid_t p, int *st, int o) { jitter(); return waitpid(p, st, o); 
 int vs_pipe2(int fds[2], int flags) { jitter(); return pipe2(fds, flags); }
 int vs_dup(int fd) { jitter(); return dup(fd); }
 int vs_dup3(int a, int b, int f) { return dup3(a, b, f); }
-int vs_sigprocmask(int how, const sigset_t *s, sigset_t *o) { return sigprocmask(how, s, o); }
+int vs_sigprocmask(int how, const sigset_t *s, sigset_t *o) { return vs_pthread_sigmask(how, s, o); }
 int vs_ppoll(struct pollfd *f, nfds_t n, const struct timespec *ts, const sigset_t *m) { jitter(); return ppoll(f, n, ts, m); }
 pid_t vs_wait4(pid_t p, int *st, int o, void *ru) { jitter(); return wait4(p, st, o, (struct rusage *) ru); }
 int vs_waitid(int t, id_t id, siginfo_t *i, int o) { jitter(); return waitid((idtype_t) t, id, i, o); }
